@@ -27,7 +27,7 @@ pub fn c02() -> Check {
     Check {
         property: "C02",
         level: "exploration",
-        scenarios: vec![Box::new(SqlScenario { name: "c02-sql", family: Family::Any, mode: Mode::Exact, need_reference: false, weight: 1, dynamic_filters: false, nlj_focus: false })],
+        scenarios: vec![Box::new(SqlScenario { name: "c02-sql", family: Family::Any, mode: Mode::Exact, need_reference: false, weight: 1, dynamic_filters: false, nlj_focus: false, tight_sort: false })],
         cases_quick: 16_000,
         cases_thorough: 400_000,
         rule: "runs: one generated SQL query (joins of every type, semi/anti/NOT IN, nested-loop, cross, GROUP BY, DISTINCT, ORDER BY/LIMIT, UNION [ALL], window functions, IN/scalar subqueries, join+aggregate) over two generated tables split into 1-4 scripted partitions, under a random semantic-neutral configuration (target_partitions 1-8, batch_size 1-8192, join/aggregate/sort/window repartitioning switches, hash-join thresholds, partial-aggregation skipping, dynamic filters, sort pushdown, coalescing, ...), 1-3 copies of the query running concurrently in one session, one scheduler policy per run; result compared with an independent reference evaluator where one exists, otherwise with the baseline configuration (single partition MemTable, defaults). distinct = distinct poll traces; non-trivial = a scheduling decision had >= 2 runnable tasks or a refusal/fault fired",
@@ -40,7 +40,7 @@ fn exact(property: &'static str, name: &'static str, family: Family, rule: &'sta
     Check {
         property,
         level: "exploration",
-        scenarios: vec![Box::new(SqlScenario { name, family, mode: Mode::Exact, need_reference: true, weight: 1, dynamic_filters: false, nlj_focus: false })],
+        scenarios: vec![Box::new(SqlScenario { name, family, mode: Mode::Exact, need_reference: true, weight: 2, dynamic_filters: false, nlj_focus: false, tight_sort: false })],
         cases_quick: 16_000,
         cases_thorough: 400_000,
         rule,
@@ -56,6 +56,12 @@ pub fn c06() -> Check {
     exact("C06", "c06-aggregates", Family::Agg, "runs: one generated aggregation (GROUP BY k | s | k,s with count(*), count, sum, min, max, count(DISTINCT); global aggregate; SELECT DISTINCT; grouped TopK with ORDER BY agg LIMIT n) over generated tables in 1-4 scripted partitions; single / partial+final / repartitioned strategies, partial-aggregation skipping thresholds and TopK aggregation chosen by the generated configuration, a third of the runs under a bounded pool (spill-and-merge); compared with a reference GROUP BY. distinct/non-trivial as for C02")
 }
 pub fn c08() -> Check {
+    let mut c = c08_base();
+    c.scenarios.push(Box::new(SqlScenario { name: "c08-sorts-tight", family: Family::Sort, mode: Mode::Exact, need_reference: true, weight: 1, dynamic_filters: false, nlj_focus: false, tight_sort: true }));
+    c.cases_quick = 24_000;
+    c
+}
+fn c08_base() -> Check {
     exact("C08", "c08-sorts", Family::Sort, "runs: ORDER BY k|s|v ASC/DESC NULLS FIRST/LAST with id tie-break, with and without LIMIT (TopK), over generated tables in 1-4 scripted partitions; in-memory, spilling (bounded pool, tiny spill files, multi-level merge) and sort-preserving merges chosen by configuration; exact sequence compared with a reference stable sort. distinct/non-trivial as for C02")
 }
 
@@ -64,13 +70,14 @@ pub fn c18() -> Check {
         property: "C18",
         level: "exploration",
         scenarios: vec![
-            Box::new(SqlScenario { name: "c18-sorts", family: Family::Sort, mode: Mode::Pressure, need_reference: true, weight: 2, dynamic_filters: false, nlj_focus: false }),
-            Box::new(SqlScenario { name: "c18-aggregates", family: Family::Agg, mode: Mode::Pressure, need_reference: true, weight: 2, dynamic_filters: false, nlj_focus: false }),
-            Box::new(SqlScenario { name: "c18-joins", family: Family::Join, mode: Mode::Pressure, need_reference: true, weight: 2, dynamic_filters: false, nlj_focus: false }),
-            Box::new(SqlScenario { name: "c18-any", family: Family::Any, mode: Mode::Pressure, need_reference: false, weight: 1, dynamic_filters: false, nlj_focus: false }),
-            Box::new(SqlScenario { name: "c18-nlj", family: Family::Join, mode: Mode::Pressure, need_reference: true, weight: 1, dynamic_filters: false, nlj_focus: true }),
+            Box::new(SqlScenario { name: "c18-sorts", family: Family::Sort, mode: Mode::Pressure, need_reference: true, weight: 2, dynamic_filters: false, nlj_focus: false, tight_sort: false }),
+            Box::new(SqlScenario { name: "c18-aggregates", family: Family::Agg, mode: Mode::Pressure, need_reference: true, weight: 2, dynamic_filters: false, nlj_focus: false, tight_sort: false }),
+            Box::new(SqlScenario { name: "c18-joins", family: Family::Join, mode: Mode::Pressure, need_reference: true, weight: 2, dynamic_filters: false, nlj_focus: false, tight_sort: false }),
+            Box::new(SqlScenario { name: "c18-any", family: Family::Any, mode: Mode::Pressure, need_reference: false, weight: 1, dynamic_filters: false, nlj_focus: false, tight_sort: false }),
+            Box::new(SqlScenario { name: "c18-nlj", family: Family::Join, mode: Mode::Pressure, need_reference: true, weight: 1, dynamic_filters: false, nlj_focus: true, tight_sort: false }),
+            Box::new(SqlScenario { name: "c18-sorts-tight", family: Family::Sort, mode: Mode::Pressure, need_reference: true, weight: 2, dynamic_filters: false, nlj_focus: false, tight_sort: true }),
         ],
-        cases_quick: 16_000,
+        cases_quick: 32_000,
         cases_thorough: 400_000,
         rule: "runs: generated queries (sort/top-k, grouped aggregation, all join kinds, windows, unions, DISTINCT) under a bounded Greedy or FairSpill pool with limits from 0 bytes to ample, optional noisy neighbour, spill compression none/lz4/zstd, tiny spill files, randomised sort spill reservation; outcome must equal the unlimited-memory expectation (reference evaluator or baseline) or fail with ResourcesExhausted anywhere in the error chain; never panic or hang; afterwards pool 0 bytes, no spill file, no live task or input stream. distinct/non-trivial as for C02",
         assumptions: L1_ASSUME.to_vec(),
@@ -83,7 +90,7 @@ pub fn c19() -> Check {
         property: "C19",
         level: "fault_enumeration",
         scenarios: vec![
-            Box::new(SqlScenario { name: "c19-drop", family: Family::Any, mode: Mode::Drop, need_reference: false, weight: 3, dynamic_filters: false, nlj_focus: false }),
+            Box::new(SqlScenario { name: "c19-drop", family: Family::Any, mode: Mode::Drop, need_reference: false, weight: 3, dynamic_filters: false, nlj_focus: false, tight_sort: false }),
             Box::new(crate::c19::YieldRepartition),
             Box::new(crate::c19::YieldSql),
         ],
@@ -100,7 +107,7 @@ pub fn c20() -> Check {
         property: "C20",
         level: "fault_enumeration",
         scenarios: vec![
-            Box::new(SqlScenario { name: "c20-faults", family: Family::Any, mode: Mode::Fault, need_reference: false, weight: 2, dynamic_filters: false, nlj_focus: false }),
+            Box::new(SqlScenario { name: "c20-faults", family: Family::Any, mode: Mode::Fault, need_reference: false, weight: 2, dynamic_filters: false, nlj_focus: false, tight_sort: false }),
             Box::new(crate::c10::RepartitionFaults),
             Box::new(crate::c20store::ScanFaults),
             Box::new(crate::c25::WriteFaults),
@@ -118,9 +125,9 @@ pub fn c31() -> Check {
         property: "C31",
         level: "exploration",
         scenarios: vec![
-            Box::new(SqlScenario { name: "c31-joins", family: Family::Join, mode: Mode::Exact, need_reference: true, weight: 3, dynamic_filters: true, nlj_focus: false }),
-            Box::new(SqlScenario { name: "c31-topk", family: Family::Sort, mode: Mode::Exact, need_reference: true, weight: 2, dynamic_filters: true, nlj_focus: false }),
-            Box::new(SqlScenario { name: "c31-aggregates", family: Family::Agg, mode: Mode::Exact, need_reference: true, weight: 1, dynamic_filters: true, nlj_focus: false }),
+            Box::new(SqlScenario { name: "c31-joins", family: Family::Join, mode: Mode::Exact, need_reference: true, weight: 3, dynamic_filters: true, nlj_focus: false, tight_sort: false }),
+            Box::new(SqlScenario { name: "c31-topk", family: Family::Sort, mode: Mode::Exact, need_reference: true, weight: 2, dynamic_filters: true, nlj_focus: false, tight_sort: false }),
+            Box::new(SqlScenario { name: "c31-aggregates", family: Family::Agg, mode: Mode::Exact, need_reference: true, weight: 1, dynamic_filters: true, nlj_focus: false, tight_sort: false }),
         ],
         cases_quick: 16_000,
         cases_thorough: 400_000,
